@@ -1021,6 +1021,29 @@ func callBuiltin(caller *frame, fn *ssa.Builtin, args []value) value {
 		}
 		return caller.i.guardedCopy(args[0].([]value), src.([]value))
 
+	case "clear":
+		caller.i.requireUnguarded("clear")
+		switch x := args[0].(type) {
+		case []value:
+			et := fn.Type().(*types.Signature).Params().At(0).Type().Underlying().(*types.Slice).Elem()
+			for k := range x {
+				x[k] = zero(et)
+			}
+		case map[value]value:
+			for k := range x {
+				delete(x, k)
+			}
+		case *hashmap:
+			for _, k := range x.entries() {
+				for e := k; e != nil; e = e.next {
+					x.delete(e.key.(hashable))
+				}
+			}
+		default:
+			panic(engineError(fmt.Sprintf("clear: unsupported operand %T", x)))
+		}
+		return nil
+
 	case "close": // close(chan T)
 		caller.i.requireUnguarded("close")
 		caller.i.chanClose(args[0].(*symChan))
